@@ -64,6 +64,16 @@ func c17Mk(cTx, theta, d1, d2, proc int64) c17Sample {
 	return c17Sample{cTx, sRx, sTx, cRx}
 }
 
+// c17Raw is the raw offset of a sample, ((sRx-cTx)+(sTx-cRx))/2 truncated toward zero, computed
+// without the code under test and without intermediate overflow.
+func c17Raw(s c17Sample) int64 {
+	a := new(big.Int).Sub(big.NewInt(s.SRx), big.NewInt(s.CTx))
+	b := new(big.Int).Sub(big.NewInt(s.STx), big.NewInt(s.CRx))
+	a.Add(a, b)
+	a.Quo(a, big.NewInt(2))
+	return a.Int64()
+}
+
 type c17Op struct {
 	Kind  string     `json:"op"` // "sample" | "reset" | "epoch"
 	S     *c17Sample `json:"sample,omitempty"`
@@ -158,6 +168,7 @@ func c17GenLucky(rng *rand.Rand) []c17Op {
 	}
 	thetaMode := rng.IntN(6)
 	rtdMode := rng.IntN(4)
+	hugeTheta, hugeSign, hugeMixed := rng.IntN(12) == 0, c17Sign(rng), rng.IntN(3) == 0
 	pReset := []float64{0, 0, 0.02, 0.1}[rng.IntN(4)]
 	theta0 := c17Sign(rng) * c17LogU(rng, 1, 1e18)
 	rtdBase := c17LogU(rng, 2000, 1e9)
@@ -204,6 +215,17 @@ func c17GenLucky(rng *rand.Rand) []c17Op {
 			theta = rtd
 		default: // offset ordered against the delay
 			theta = -rtd
+		}
+		if hugeTheta {
+			if hugeMixed {
+				hugeSign = c17Sign(rng)
+			}
+			// offsets between 2^62 ns (146 years) and 7e18 ns: the offset and every difference of two
+			// timestamps fit into int64 nanoseconds, twice the offset does not
+			theta = hugeSign * ((int64(1) << 62) + rng.Int64N(7e18-(1<<62)))
+			if rng.IntN(5) == 0 {
+				theta = hugeSign * ((int64(1) << 62) - 2 + rng.Int64N(5))
+			}
 		}
 		d1 := rtd / 2
 		switch rng.IntN(3) {
@@ -272,7 +294,7 @@ func c17RunLucky(r *ev.Run, id string, cfg c17LuckyCfg, ops []c17Op, cls c17Clas
 			continue
 		}
 		t0, t1, t2, t3 := op.S.times()
-		raw := int64(ntp.ClockOffset(t0, t1, t2, t3))
+		raw := c17Raw(*op.S)
 		rtd := int64(ntp.RoundTripDelay(t0, t1, t2, t3))
 		var got time.Duration
 		if p := c17Try(func() { got = f.Do(t0, t1, t2, t3) }); p != nil {
@@ -590,7 +612,7 @@ func c17RunNtimed(r *ev.Run, id string, ops []c17Op, clk *c17Clock, cls c17Class
 		}
 		s := *op.S
 		t0, t1, t2, t3 := s.times()
-		raw := int64(ntp.ClockOffset(t0, t1, t2, t3))
+		raw := c17Raw(*op.S)
 		lo, hi := s.CTx-s.SRx, s.CRx-s.STx
 		n++
 		*recA = c17Rec{}
@@ -846,8 +868,8 @@ func init() {
 			r.Inconclusive("the Ntimed filter's \"filtered response\" record (branch, lo, hi, loLim, hiLim) was never observed")
 		}
 		r.Assume("lucky-packet comparison: round-trip delays are pairwise distinct within a history (the statement leaves ties open)")
-		r.Assume("|offset| <= 1e9 s, one-way delays 1 us .. 10 s, so that no int64 nanosecond difference saturates")
-		r.Assume("raw offset := ntp.ClockOffset(cTx,sRx,sTx,cRx); float tolerance for the Ntimed filter = 4 ulp of max(|cTx-sRx|,|cRx-sTx|) in seconds + 2 ns")
+		r.Assume("Ntimed filter: |offset| <= 1e9 s; lucky-packet filter: |offset| <= 7e18 ns (every difference of two timestamps of a sample fits into int64 nanoseconds); one-way delays 1 us .. 10 s")
+		r.Assume("raw offset := ((sRx-cTx)+(sTx-cRx))/2 in exact integer arithmetic; float tolerance for the Ntimed filter = 4 ulp of max(|cTx-sRx|,|cRx-sTx|) in seconds + 2 ns")
 		r.Assume("Ntimed 'within its learned delay bounds' is checked for samples that provably lie inside any bounds learnable since the reset (cTx-sRx >= and cRx-sTx <= all values seen, relative margin 2e-9) and for samples the filter's own debug record shows inside loLim/hiLim; samples 1..3 since a reset = 'fewer than four samples seen'")
 		r.Finish("seeded histories (1..200 samples; offsets 0..+-1e9 s constant/wandering/drifting/jumping; delays log-uniform 1us..10s or base+jitter with one- and two-sided spikes; samples that undercut all delays seen so far) run through the real filters. "+
 			"LuckyPacketFilter: all 144 (cap,pick) in 1..12 x 1..12 and the zero value, Reset() at random positions, each output compared with a reference model (window of last N, k lowest rtd, median; even count: either rounding of the midpoint). "+
